@@ -94,6 +94,16 @@ def check_hand(cards, who, stats=None):
     got = sorted(be.CARD_IDX[c] for c in hs)
     check(got == sorted(cards), 'hand message is understood as a different hand', dict(case, message=msg), {'got': PL.fmt_cards(got)})
     check(list(hv) == [1 if c in cards else 0 for c in range(52)], 'hand vector does not match the hand', dict(case, message=msg))
+    # the client hands the parsed set to its playing phase, which removes the cards as they are played: the same
+    # message parsed again (next board, another client in the process) must still mean the original hand
+    for c in sorted(cards)[:3]:
+        hs.discard(be.CARD[c])
+    hs.add(be.CARD[next(c for c in range(52) if c not in cards)] if len(cards) < 52 else be.CARD[0])
+    hs2, hv2 = guard('parse_hand raises on a server-built hand', case, Client.parse_hand, body)
+    got2 = sorted(be.CARD_IDX[c] for c in hs2)
+    check(got2 == sorted(cards) and list(hv2) == [1 if c in cards else 0 for c in range(52)],
+          'the same hand message is understood differently the second time (after the first result was used)',
+          dict(case, message=msg), {'got': PL.fmt_cards(got2)})
     if stats is not None:
         stats.evaluated()
         suits = {c // 13 for c in cards}
